@@ -907,6 +907,9 @@ fn context_mutations<S: ShortGroupSignatureScheme>(w: &World<S>, rng: &mut ChaCh
     let (other_ipub, _) = Issuer::<S>::new(&w.issuers[0].0.schema);
     let other_acc_sk = vb20::SecretKey::new(None);
     let other_acc_pk = vb20::PublicKey::from(&other_acc_sk);
+    // another signature statement of the schema (a reference retargeted to it stays well-formed), else a dangling id
+    let sig_ids: Vec<String> = w.statements.iter().filter_map(|st| if let Statements::Signature(s) = st { Some(s.id.clone()) } else { None }).collect();
+    let other_sig_id = |cur: &String| -> String { sig_ids.iter().find(|x| *x != cur).cloned().unwrap_or_else(|| "no-such-statement".to_string()) };
     for (i, st) in w.statements.iter().enumerate() {
         let mut push = |name: &str, ns: Statements<S>| {
             let mut v = w.statements.clone();
@@ -975,6 +978,9 @@ fn context_mutations<S: ShortGroupSignatureScheme>(w: &World<S>, rng: &mut ChaCh
             }
             Statements::Revocation(s) => {
                 let mut t = (**s).clone();
+                t.reference_id = other_sig_id(&s.reference_id);
+                push("reference_id", t.into());
+                let mut t = (**s).clone();
                 t.verification_key = other_acc_pk;
                 push("verification_key", t.into());
                 let mut t = (**s).clone();
@@ -985,6 +991,9 @@ fn context_mutations<S: ShortGroupSignatureScheme>(w: &World<S>, rng: &mut ChaCh
                 push("claim+1", t.into());
             }
             Statements::Membership(s) => {
+                let mut t = (**s).clone();
+                t.reference_id = other_sig_id(&s.reference_id);
+                push("reference_id", t.into());
                 let mut t = (**s).clone();
                 t.verification_key = other_acc_pk;
                 push("verification_key", t.into());
@@ -1010,6 +1019,9 @@ fn context_mutations<S: ShortGroupSignatureScheme>(w: &World<S>, rng: &mut ChaCh
             }
             Statements::Commitment(s) => {
                 let mut t = (**s).clone();
+                t.reference_id = other_sig_id(&s.reference_id);
+                push("reference_id", t.into());
+                let mut t = (**s).clone();
                 t.message_generator = other_g1;
                 push("message_generator", t.into());
                 let mut t = (**s).clone();
@@ -1020,6 +1032,9 @@ fn context_mutations<S: ShortGroupSignatureScheme>(w: &World<S>, rng: &mut ChaCh
                 push("claim+-1", t.into());
             }
             Statements::Range(s) => {
+                let mut t = (**s).clone();
+                t.signature_id = other_sig_id(&s.signature_id);
+                push("signature_id", t.into());
                 let mut t = (**s).clone();
                 t.lower = match t.lower { Some(l) => Some(l.wrapping_sub(1)), None => Some(isize::MIN) };
                 push("lower-changed-or-added", t.into());
@@ -1037,6 +1052,9 @@ fn context_mutations<S: ShortGroupSignatureScheme>(w: &World<S>, rng: &mut ChaCh
             }
             Statements::VerifiableEncryption(s) => {
                 let mut t = (**s).clone();
+                t.reference_id = other_sig_id(&s.reference_id);
+                push("reference_id", t.into());
+                let mut t = (**s).clone();
                 t.allow_message_decryption = !t.allow_message_decryption;
                 push("allow_message_decryption", t.into());
                 let mut t = (**s).clone();
@@ -1050,6 +1068,9 @@ fn context_mutations<S: ShortGroupSignatureScheme>(w: &World<S>, rng: &mut ChaCh
                 push("claim+-1", t.into());
             }
             Statements::VerifiableEncryptionDecryption(s) => {
+                let mut t = (**s).clone();
+                t.reference_id = other_sig_id(&s.reference_id);
+                push("reference_id", t.into());
                 let mut t = (**s).clone();
                 t.message_generator = other_g1;
                 push("message_generator", t.into());
